@@ -84,7 +84,14 @@ impl Drop for AsyncWritableFile {
     fn drop(&mut self) {
         let mut content = vec![];
         swap(&mut content, self.content.get_mut());
-        let mut handle = futures::executor::block_on(self.fs.write());
+        // no nested executor here: `futures::executor::block_on` panics when this handle is dropped
+        // inside a task that is itself driven by it
+        let mut handle = loop {
+            if let Some(handle) = self.fs.try_write() {
+                break handle;
+            }
+            std::thread::yield_now();
+        };
         match handle.files.get(&self.destination) {
             Some(file) if file.file_type == VfsFileType::File => {}
             // The file was removed (or replaced by a directory) while this handle was open.
